@@ -431,13 +431,17 @@ def streams(rng, tier):
                  rule="tenc <type> <value> for every registered built-in type (C01 corpus): implementation bytes == model bytes (= encPref of the data-model value by builtin_pref)")
     stb.shrinkable = False
     # determinism: the same ops a second time must give the same bytes
-    return [st, sti, stt, stb, balanced_stream(rng, tier), balanced_split_stream(rng, tier), Stream("encoder-methods-again", "hcore", ops[::7], rule="every 7th op of the first stream, run again in a fresh process")]
+    from verifkit.props import C13
+    return [st, sti, stt, stb, balanced_stream(rng, tier), balanced_split_stream(rng, tier), C13.tovec_stream(rng, tier), Stream("encoder-methods-again", "hcore", ops[::7], rule="every 7th op of the first stream, run again in a fresh process")]
 
 
 def replay_streams(rp):
     op = rp.get("original_op") or rp["op"]
     if op.startswith("tokenc "):
         return [Stream("replay", "hcore", [op], spec_ops=["balanced " + op[7:]], judge=judge_balanced)]
+    if op.startswith("sinkval "):
+        from verifkit.props import C13
+        return C13.replay_streams(rp)
     if op.startswith("tokencs "):
         return [Stream("replay", "hcore", [op], model_ops=["tokenc " + op[8:]], spec_ops=["balanced " + op[8:]], judge=judge_balanced)]
     return [Stream("replay", rp.get("binary", "hcore"), [op], spec_ops=["encspec " + op[4:]], judge=judge)]
